@@ -16,7 +16,7 @@ import (
 // ---------------------------------------------------------------- LITERAL
 
 func ruleLiteral(c *Ctx) *RuleResult {
-	r := &RuleResult{Rule: "LITERAL", Doc: "every DenseGraph/SparseGraph composite literal that sets the adjacency field also sets NumberOfVertices, NumberOfEdges and DegreeSequence (a missing field is the zero value, wrong for any graph with an edge)", MinInst: 10}
+	r := &RuleResult{Rule: "LITERAL", Doc: "every DenseGraph/SparseGraph composite literal that sets the adjacency field also sets NumberOfVertices, NumberOfEdges and DegreeSequence (a missing field is the zero value, wrong for any graph with an edge)", MinInst: 6}
 	adj := map[string]string{"DenseGraph": "Edges", "SparseGraph": "Neighbourhoods"}
 	need := []string{"NumberOfVertices", "NumberOfEdges", "DegreeSequence"}
 	for _, p := range c.modulePackages() {
@@ -157,7 +157,7 @@ func (E *Eff) catOfLoc(c *Ctx, l loc) int {
 }
 
 func ruleCouple(c *Ctx, pkgs map[string]bool) *RuleResult {
-	r := &RuleResult{Rule: "COUPLE", Doc: "on every entry-to-return path through an instruction that directly mutates adjacency storage of a graph reached from a parameter, NumberOfEdges and DegreeSequence of that graph are also written (directly or by a callee); the four single-edge methods update both endpoint degrees and the edge count with the sign matching the adjacency change", MinInst: 8}
+	r := &RuleResult{Rule: "COUPLE", Doc: "on every entry-to-return path through an instruction that directly mutates adjacency storage of a graph reached from a parameter, NumberOfEdges and DegreeSequence of that graph are also written (directly or by a callee); the four single-edge methods update both endpoint degrees and the edge count with the sign matching the adjacency change", MinInst: 6}
 	E := c.Eff()
 	for _, fn := range c.Funcs {
 		p := fnPkg(fn)
@@ -452,7 +452,7 @@ func init() {
 	copies := []string{"(*graph.DenseGraph).Copy", "(*graph.DenseGraph).InducedSubgraph", "(graph.SparseGraph).Copy", "(graph.SparseGraph).InducedSubgraph"}
 	register(&propDef{
 		id:          "C05",
-		explanation: "Decides three structural clauses of the editable graphs: COUPLE (in every function of package graph that directly mutates adjacency storage reached from a parameter, every path through the mutation also writes NumberOfEdges and DegreeSequence of that graph; AddEdge/RemoveEdge of both representations update the count once, each endpoint's degree once, with the sign of the adjacency change), FRESH/PURE (Copy and InducedSubgraph of both representations return memory that reaches neither receiver nor argument, and write nothing reachable from them), EDGEBYTE (a byte read from an existing graph's adjacency storage is only ever tested against zero, never used numerically, since any non-zero byte is an edge), ROWS (every neighbour list stored into a SparseGraph table owns its backing array: no window into an array shared with other rows), TRI (every element index into DenseGraph.Edges in graph_dense.go is a lower-triangle cell J(J-1)/2+I with 0<=I<J proved by E-PROVE where the operands are locally controlled, a running index over a J/I nest, or a linear sweep). Does not decide agreement with the adjacency-set model under arbitrary histories.",
+		explanation: "Decides three structural clauses of the editable graphs: COUPLE (in every function of package graph that directly mutates adjacency storage reached from a parameter, every path through the mutation also writes NumberOfEdges and DegreeSequence of that graph; AddEdge/RemoveEdge of both representations update the count once, each endpoint's degree once, with the sign of the adjacency change), FRESH/PURE (Copy and InducedSubgraph of both representations return memory that reaches neither receiver nor argument, and write nothing reachable from them), EDGEBYTE (a byte read from an existing graph's adjacency storage is only ever tested against zero, never used numerically, since any non-zero byte is an edge), ROWS (every neighbour list stored into a SparseGraph table owns its backing array: no window into an array shared with other rows), REGROW (storage that an edit method grows back in place into spare capacity - a slice expression guarded by a cap test - is visibly initialised up to its new length by a sweep, copy or clear: the spare capacity holds whatever an earlier RemoveVertex/RemoveEdge left there), TRI (every element index into DenseGraph.Edges in graph_dense.go is a lower-triangle cell J(J-1)/2+I with 0<=I<J proved by E-PROVE where the operands are locally controlled, a running index over a J/I nest, or a linear sweep). Does not decide agreement with the adjacency-set model under arbitrary histories.",
 		notDecided:  []string{"that observers agree with an adjacency-set model after every edit history (e.g. the compaction arithmetic of dense RemoveVertex, duplicate neighbours passed to AddVertex)", "dense/sparse agreement", "InducedSubgraph(V) maps vertex i to V[i]"},
 		assumptions: []string{"vertex numbers passed as parameters are non-negative (callers' contract)", "neighbour lists / codes loaded from memory satisfy their range preconditions (recorded in the evidence, not judged)"},
 		run: func(c *Ctx, tier string) []*RuleResult {
@@ -469,7 +469,7 @@ func init() {
 			}
 			tri := ruleTriX(c, inFiles("graph_dense.go"), "TRI", true)
 			tri.MinInst = 5
-			return []*RuleResult{cp, fr, tri, ruleRows(c), ruleEdgeByte(c, "graph")}
+			return []*RuleResult{cp, fr, tri, ruleRows(c), ruleEdgeByte(c, "graph"), ruleRegrow(c, "graph")}
 		},
 		controls: func(ctl *Ctx) []*RuleResult {
 			cp := ruleCouple(ctl, map[string]bool{"ctl/graph": true})
@@ -480,12 +480,12 @@ func init() {
 			freshResult(ctl, fr, ctl.Fn("(*graph.DenseGraph).GoodCopy"), 0, nil, nil, "is a deep copy")
 			tri := ruleTri(ctl, func(string) bool { return true }, "TRI")
 			lit := ruleLiteral(ctl)
-			return []*RuleResult{cp, es, fr, tri, lit, ruleRows(ctl), ruleEdgeByte(ctl, "graph")}
+			return []*RuleResult{cp, es, fr, tri, lit, ruleRows(ctl), ruleEdgeByte(ctl, "graph"), ruleRegrow(ctl, "graph")}
 		},
 	})
 	register(&propDef{
 		id:          "C06",
-		explanation: "Decides: FRESH (the graphs returned by NewDense and NewSparse reach no memory of the caller's edges / neighbourhoods slices, so later writes by the caller cannot change them), LITERAL (every DenseGraph/SparseGraph composite literal in the module that sets the adjacency field also sets NumberOfVertices, NumberOfEdges and DegreeSequence), EDGEBYTE (transformations and encoders never use the numeric value of an input graph's adjacency byte), VIEW (the methods of the live complement / induced-subgraph views write nothing reachable from the view: no cache to go stale), OWNER (no function other than SparseGraph's own edit methods writes the fields of an existing SparseGraph, whether received as a parameter or obtained from a constructor call, so decoders cannot bypass the row invariants), TRI (every hand-written index into packed-triangle storage in the generators, transformations, decoders and the search is a lower-triangle cell: closed form with 0<=I<J proved for all accepted parameter values when the operands are locally controlled, running index, or linear sweep), DEGSYNC (an edge recorded at cell (I,J) is counted into the returned degree sequence at exactly the entries I and J), COUNTS (hand-filled NumberOfEdges >= 0 and degrees within [0,n-1] for every accepted argument), IRREFLEXIVE (no IsEdge implementation can be true for i == j), and classifies each constructor as counted-by-construction or hand-filled. Does not decide that each named family has exactly the edges of its definition.",
+		explanation: "Decides: FRESH (the graphs returned by NewDense and NewSparse reach no memory of the caller's edges / neighbourhoods slices, so later writes by the caller cannot change them), LITERAL (every DenseGraph/SparseGraph composite literal in the module that sets the adjacency field also sets NumberOfVertices, NumberOfEdges and DegreeSequence), EDGEBYTE (transformations and encoders never use the numeric value of an input graph's adjacency byte), VIEW (the methods of the live complement / induced-subgraph views write nothing reachable from the view: no cache to go stale), OWNER (no function other than SparseGraph's own edit methods writes the fields of an existing SparseGraph, whether received as a parameter or obtained from a constructor call, so decoders cannot bypass the row invariants), TRI (every hand-written index into packed-triangle storage in the generators, transformations, decoders and the search is a lower-triangle cell: closed form with 0<=I<J proved for all accepted parameter values when the operands are locally controlled, running index, or linear sweep), DEGSYNC (an edge recorded at cell (I,J) is counted into the returned degree sequence at exactly the entries I and J), COUNTS (hand-filled NumberOfEdges >= 0 and degrees within [0,n-1] for every accepted argument), IRREFLEXIVE (no IsEdge implementation can be true for i == j), REGROW (graph storage grown in place into spare capacity is initialised up to its new length), and classifies each constructor as counted-by-construction or hand-filled. Does not decide that each named family has exactly the edges of its definition.",
 		notDecided:  []string{"that each named family has exactly the edges its definition prescribes", "full agreement of hand-filled counts with adjacency (CompleteGraph, CompletePartiteGraph, Path, Star, Cycle, ComplementDense): only their range (COUNTS) and the pairing of counted edges (DEGSYNC) are decided"},
 		assumptions: []string{"vertex numbers passed as parameters are non-negative", "data-derived operands (Pruefer code elements, Multicode bytes, neighbour lists, part sizes) satisfy their range preconditions (recorded, not judged)"},
 		run: func(c *Ctx, tier string) []*RuleResult {
@@ -511,7 +511,7 @@ func init() {
 				}
 			}
 			all := func(string) bool { return true }
-			return []*RuleResult{fr, ruleLiteral(c), tri, own, ruleEdgeByte(c, "graph"), vw, ruleRows(c), ruleDegSync(c, all), ruleCounts(c, all), ruleIrreflexive(c, "graph"), ruleSubword(c, func(f string) bool { return strings.HasSuffix(filepath.Dir(f), "/graph") }), ruleRetainHelpers(c), ruleCtorClass(c)}
+			return []*RuleResult{fr, ruleLiteral(c), tri, own, ruleEdgeByte(c, "graph"), vw, ruleRows(c), ruleDegSync(c, all), ruleCounts(c, all), ruleIrreflexive(c, "graph"), ruleRegrow(c, "graph"), ruleSubword(c, func(f string) bool { return strings.HasSuffix(filepath.Dir(f), "/graph") }), ruleRetainHelpers(c), ruleCtorClass(c)}
 		},
 		controls: func(ctl *Ctx) []*RuleResult {
 			fr := &RuleResult{Rule: "FRESH"}
